@@ -640,6 +640,46 @@ func runC03(r *core.Run) {
 			r.AddEvals(nb)
 			r.NTCount(nb)
 		}
+		// every 16-bit level k/65535 in each channel (what a decoded 16-bit pixel holds exactly), and
+		// colours with one component many orders of magnitude below the others, in every position
+		{
+			var nb int64
+			for k := 0; k <= 65535; k++ {
+				v := float32(k) / 65535
+				for ch := 0; ch < 3; ch++ {
+					in := [3]float32{0.25, 0.5, 0.75}
+					in[ch] = v
+					if k%3 == 0 {
+						in = [3]float32{v, v, v}
+						in[(ch+1)%3] = 1 - v
+					}
+					if ch != k%3 && k%16 != 0 {
+						continue
+					}
+					kind, msg, _ := c03Point(s, &p, in)
+					nb++
+					if kind != "" {
+						r.Violate("point", s.Name+"/"+kind+"/16-bit-level", msg, c03Case{s.Name, kind, in, nil})
+						break
+					}
+				}
+			}
+			for _, tiny := range []float32{1e-9, 1e-12, -1e-9, 1e-20, 1e-30, 6e-8, 1e-7} {
+				for _, rest := range [][2]float32{{0.8, 0.3}, {1, 0.5}, {0.3, 0.8}, {-0.2, 1.1}, {1, 1}} {
+					for ch := 0; ch < 3; ch++ {
+						var in [3]float32
+						in[ch], in[(ch+1)%3], in[(ch+2)%3] = tiny, rest[0], rest[1]
+						kind, msg, _ := c03Point(s, &p, in)
+						nb++
+						if kind != "" {
+							r.Violate("point", s.Name+"/"+kind+"/tiny-component", msg, c03Case{s.Name, kind, in, nil})
+						}
+					}
+				}
+			}
+			r.AddEvals(nb * 4)
+			r.NTCount(nb)
+		}
 		// call sequences on one function at a time (c03Point above interleaves four calls): two colours
 		// in alternation (A, B, A, B), a colour right after a much larger one with which it shares two
 		// of its three components, and colours whose components span the float32 exponent range with
@@ -834,7 +874,7 @@ func runC03(r *core.Run) {
 		// the whole workload once more in the GOARCH=386 build of this monitor (see ./check)
 		r.RunVariantChild("arch386@16", 30*time.Minute, false)
 		r.Obs("arch386_child", "run")
-		for _, v := range append([]string{"xyzfirst", "xyzfirst+rev@2", "rev@1", "warm@2", "decfirst+encfirst@1", "genfirst@2", "genfirst+xyzfirst+rev@1", "rot1+genfirst@1", "rot2+genfirst+xyzfirst@3", "burst+cross@8", "burst+cross+xyzfirst@16", "burst+cross+stagger@4", "burst+cross+rev@16", "burst+cross+xyzfirst+rev@8", "burst+cross@2", "burst+cross+fine10@16", "burst+cross+fine60@8", "burst+cross+fine250+xyzfirst@16", "burst+cross+fine30+rev@8", "burst+xyzfirst@4", "burst+xyzfirst+stagger@8",
+		for _, v := range append([]string{"xyzfirst", "xyzfirst+rev@2", "rev@1", "warm@2", "decfirst+encfirst@1", "genfirst@2", "genfirst+xyzfirst+rev@1", "rot1+genfirst@1", "rot2+genfirst+xyzfirst@3", "burst+cross@8", "burst+cross+xyzfirst@16", "burst+cross+stagger@4", "burst+cross+rev@16", "burst+cross+xyzfirst+rev@8", "burst+cross@2", "burst+cross+fine10@16", "burst+cross+fine60@8", "burst+cross+fine250+xyzfirst@16", "burst+cross+fine30+rev@8", "burst+xyzfirst@4", "burst+xyzfirst+stagger@8", "xyzfirst@3", "rev@5", "xyzfirst+rev@6", "rot1@7", "xyzfirst@12", "rot2@11", "rev@13",
 			"atinit+burst@1", "atinit+burst@16", "atinit+burst+rev@2", "atinit+burst@4",
 			"burst+mixedD@16", "burst+mixedD+fine1000@16", "burst+mixedT+fine10000@16", "burst+mixedD+fine100000@16", "burst+mixedT+fine400000@8", "burst+mixedE+cross+fine30000@16", "burst+mixedR+rev+fine100000@4", "burst+mixedD+fine200000@2", "burst+mixedT+xyzfirst+fine50000@16", "burst+mixedE+fine3000@16", "burst+mixedR+fine20000@16", "burst+mixedT+fine100@16"}, burstVariants...) {
 			r.RunVariantChild(v, 10*time.Minute, false)
